@@ -35,6 +35,12 @@ impl AtomicCounter {
     pub fn store(&self, new_value: usize) {
         self.current.store(new_value, Ordering::SeqCst)
     }
+
+    /// Updates the value of the counter as the given `new_value` and returns its previous value.
+    #[inline(always)]
+    pub fn swap(&self, new_value: usize) -> usize {
+        self.current.swap(new_value, Ordering::SeqCst)
+    }
 }
 
 impl Default for AtomicCounter {
